@@ -115,12 +115,15 @@ func ImportModuleLevelObject(ctx Context, name string, globals, locals StringDic
 
 	module, err := RunFile(ctx, srcPathname, opts, name)
 	if err != nil {
+		if _, started := ctx.Store().modules[name]; started {
+			// The module's code failed: do not leave the half initialised
+			// module in the store, or the next import would silently succeed
+			delete(ctx.Store().modules, name)
+			return nil, err
+		}
 		if IsException(FileNotFoundError, err) {
 			return nil, ExceptionNewf(ImportError, "No module named '%s'", name)
 		}
-		// The module's code failed: do not leave the half initialised
-		// module in the store, or the next import would silently succeed
-		delete(ctx.Store().modules, name)
 		return nil, err
 	}
 
